@@ -142,6 +142,9 @@ type Job struct {
 	Proxy        bool             `json:"proxy"`        // also through proxy Ingestor + store gRPC handlers
 	Asc          bool             `json:"asc"`
 	Pipe         bool             `json:"pipe"`         // group values contain the AggBin key separator '|'
+	Shards       int              `json:"shards"`       // > 0: also the proxy over this many shards (shards.go)
+	GhostMask    int              `json:"ghostMask"`    // bit i: shard i has a first replica that never got the request
+	Perm         int              `json:"perm"`         // the order in which the shards finish, and where they resume from
 }
 
 var (
@@ -150,6 +153,8 @@ var (
 	orderProbe = flag.String("order-probe", "", "directory: run one request there and exit (used under strace)")
 	behFile    = flag.String("behs", "", "file with the behaviours emitted by AsyncSearch.tla (one JSON object per line)")
 	covFile    = flag.String("cov", "", "append the ids of the behaviours replayed by this process to this file")
+	pvecFile   = flag.String("pvecs", "", "file with the proxy-level vectors of AsyncSearch.tla (EmitPVec, reduced to classes)")
+	pcovFile   = flag.String("pcov", "", "append the keys of the proxy-level vectors replayed by this process to this file")
 	behs       = map[int][]Beh{} // captured fractions -> behaviours
 	cursor     = map[int]int{}
 	cursorMu   sync.Mutex
@@ -1134,6 +1139,11 @@ func runJob(j *Job) {
 			report(-2, m)
 		}
 	}
+	if j.Shards > 0 {
+		if m := w.shardStage(); m != nil {
+			report(-3, m)
+		}
+	}
 }
 
 // ---------------------------------------------------------------- order probe (run under strace)
@@ -1202,6 +1212,28 @@ func main() {
 		}
 		fh.Close()
 	}
+	if *pvecFile != "" {
+		fh, err := os.Open(*pvecFile)
+		if err != nil {
+			emit(map[string]any{"infra": err.Error()})
+			os.Exit(3)
+		}
+		bs := bufio.NewScanner(fh)
+		for bs.Scan() {
+			var v PVec
+			if err := json.Unmarshal(bs.Bytes(), &v); err != nil || v.NS != len(v.Cls) {
+				emit(map[string]any{"infra": fmt.Sprintf("bad proxy vector %s: %v", bs.Text(), err)})
+				os.Exit(3)
+			}
+			pvecs[v.NS] = append(pvecs[v.NS], v)
+		}
+		fh.Close()
+		for ns := range pvecs {
+			for i := range pvecs[ns] {
+				pvecByKey[pkey(pvecs[ns][i].Cls)] = &pvecs[ns][i]
+			}
+		}
+	}
 	sc := bufio.NewScanner(os.Stdin)
 	sc.Buffer(make([]byte, 1<<20), 1<<28)
 	var jobs []*Job
@@ -1261,6 +1293,21 @@ func main() {
 			fh.Close()
 		}
 	}
-	emit(map[string]any{"summary": true, "covered": ncov, "cases": behsRun.Load(), "evals": evals.Load(), "nontrivial": nontriv.Load(), "corpora": ncov,
+	nfd := 0
+	if ents, err := os.ReadDir("/proc/self/fd"); err == nil {
+		nfd = len(ents)
+	}
+	if *pcovFile != "" {
+		var ks []string
+		pcovered.Range(func(k, _ any) bool { ks = append(ks, fmt.Sprint(k)); return true })
+		if fh, err := os.OpenFile(*pcovFile, os.O_APPEND|os.O_CREATE|os.O_WRONLY, 0o644); err == nil {
+			fmt.Fprintln(fh, strings.Join(ks, " "))
+			fmt.Fprintf(fh, "#stats shardJobs=%d vectors=%d vectorsSkipped=%d liveFetches=%d shardInterruptions=%d fds=%d\n",
+				shardJobs.Load(), vecsRun.Load(), vecsSkip.Load(), liveObs.Load(), shardKills.Load(), nfd)
+			fh.Close()
+		}
+	}
+	emit(map[string]any{"summary": true, "covered": ncov, "shardJobs": shardJobs.Load(), "vectors": vecsRun.Load(), "vectorsSkipped": vecsSkip.Load(),
+		"liveFetches": liveObs.Load(), "shardInterruptions": shardKills.Load(), "fds": nfd, "cases": behsRun.Load(), "evals": evals.Load(), "nontrivial": nontriv.Load(), "corpora": ncov,
 		"behaviours": behsRun.Load(), "interruptions": killsRun.Load(), "skipped": skipped.Load(), "abandoned": abandoned.Load(), "jobs": len(jobs)})
 }
